@@ -40,7 +40,7 @@ Definition closers (g : config) (h : nat) : Z := sumf (wclose h) (threads g).
 Definition wcall (h : nat) (th : thread) : Z :=
   match t_pc th with
   | InCall x => if Nat.eqb x h then 1 else 0
-  | CallFin x => if Nat.eqb x h then 1 else 0
+  | CallFin x _ => if Nat.eqb x h then 1 else 0
   | _ => 0
   end.
 (* calls through h in progress *)
@@ -162,12 +162,13 @@ Definition ids_ok (g : config) : Prop :=
   match t_pc th with
   | CLock _ c | FLock _ c => c < length (clients g)
   | CWalk _ _ cur | WWalk _ _ cur | FWalk _ _ _ cur => cur < length (hooks g)
-  | InCall h | CallFin h | WaitDone h => h < length (hooks g)
+  | InCall h | CallFin h _ | WaitDone h => h < length (hooks g)
   | FMark p _ _ => p < length (hooks g)
   | Idle => True
   end%nat.
 
-(* the part of no_stuck that is proved (CapProofs.no_stuck_partial): as [no_stuck_stmt], for
+(* An earlier, weaker form (CapProofs.no_stuck_partial); the full [no_stuck_stmt] is proved in
+   CapLive.v.  As [no_stuck_stmt], for
    configurations that are well-formed in the sense of [ids_ok] and in which no Fulfill is
    inside its transfer walk (the only place where a hook mutex is held across steps).
    Missing for the full statement: (1) [ids_ok] as an invariant of [reachable], (2) the
